@@ -173,3 +173,9 @@
 (define-fun spec_vint ((a V)) (_ BitVec 64) (vint a))
 (define-fun spec_vstr ((a V)) Str (vstr a))
 (define-fun spec_vtime ((a V)) TimeT (vtime a))
+
+; kinds whose representation holds mutable state reachable by scripts (C10 copy, C09)
+(define-fun spec_mutablekind ((a V)) Bool
+  (or ((_ is VArr) a) ((_ is VMap) a) ((_ is VBytes) a) ((_ is VErr) a)))
+(define-fun spec_isarr ((a V)) Bool ((_ is VArr) a))
+(define-fun spec_ismap ((a V)) Bool ((_ is VMap) a))
